@@ -1,6 +1,7 @@
 import ComposeVerif.Model.EnvLayers
 import ComposeVerif.Model.EnvLayersOrder
 import ComposeVerif.Spec.EnvLayers
+import ComposeVerif.Props.C07
 /-! Helper lemmas for C16: association lists, `parseLines` / `loadEnvFiles` against the specification. -/
 namespace CV.EnvLayers
 open CV.EnvLayers.Spec
@@ -229,7 +230,11 @@ theorem parseLines_distinct (look : Look) (ls : List Line) (out res : List (Key 
   | nil => simp only [parseLines, Except.ok.injEq] at h; exact h ▸ hd
   | cons x r ih =>
     cases x with
-    | assign k v => exact ih _ (distinct_insert _ _ _ hd) h
+    | assign k v =>
+      simp only [parseLines] at h
+      cases hv : evalValue (withFile look out) v with
+      | ok val => rw [hv] at h; exact ih _ (distinct_insert _ _ _ hd) h
+      | error e => rw [hv] at h; cases h
     | bare k =>
       simp only [parseLines] at h
       cases hl : look k with
@@ -237,8 +242,41 @@ theorem parseLines_distinct (look : Look) (ls : List Line) (out res : List (Key 
       | none => rw [hl] at h; exact ih _ hd h
     | bad => simp [parseLines] at h
 
+/-- the model's evaluation of a well-formed value (C07's model of `template.Substitute` on its rendering) is what
+    the grammar says (C07's `subst_render`) -/
+theorem evalValue_spec (look : Look) (v : List Seg) (val : Str) (hwf : CV.Template.WF v = true)
+    (h : evalValue look v = .ok val) : val = specValue look v := by
+  unfold evalValue at h
+  rw [CV.Template.subst_render look v hwf] at h
+  unfold CV.Template.evalOut at h
+  unfold specValue
+  cases he : CV.Template.evalL look v with
+  | ok s => rw [he] at h; simp only [Except.ok.injEq] at h; exact h.symm
+  | error e => rw [he] at h; cases h
+
+theorem evalValue_never_panics (look : Look) (v : List Seg) : evalValue look v ≠ .error .panic := by
+  unfold evalValue
+  cases h : CV.Template.subst look (CV.Template.renderL v) with
+  | ok s => simp
+  | err e => simp
+  | panic p => exact absurd h (CV.Template.subst_never_panics look _ p)
+
+/-- decidable form of `WFLines` -/
+def wfLinesB (ls : List Line) : Bool :=
+  ls.all fun l => match l with
+    | .assign _ v => CV.Template.WF v
+    | _ => true
+
+theorem wfLines_of_B (ls : List Line) (h : wfLinesB ls = true) : WFLines ls := by
+  intro k v hm
+  have := List.all_eq_true.1 h _ hm
+  simpa using this
+
+theorem wfLines_cons (x : Line) (r : List Line) (h : WFLines (x :: r)) : WFLines r :=
+  fun k v hm => h k v (List.mem_cons_of_mem _ hm)
+
 /-- the forward loop of the parser computes the backward-recursive specification -/
-theorem parseLines_spec (look : Look) (ls : List Line) (out res : List (Key × Str))
+theorem parseLines_spec (look : Look) (ls : List Line) (out res : List (Key × Str)) (hwf : WFLines ls)
     (h : parseLines look ls out = .ok res) :
     ∀ k, lookup k res = fileValRevFrom look (fun n => lookup n out) ls.reverse k := by
   induction ls generalizing out with
@@ -246,19 +284,25 @@ theorem parseLines_spec (look : Look) (ls : List Line) (out res : List (Key × S
   | cons x r ih =>
     intro k
     rw [List.reverse_cons, fileValRevFrom_append]
+    have hwr := wfLines_cons x r hwf
     cases x with
     | assign k' v =>
-      have := ih _ h k
-      rw [this]
-      congr 1
-      funext n
-      simp only [fileValRevFrom, lookup_insert, withFile_eq]
+      simp only [parseLines] at h
+      cases hv : evalValue (withFile look out) v with
+      | error e => rw [hv] at h; cases h
+      | ok val =>
+        rw [hv] at h
+        rw [ih _ hwr h k]
+        congr 1
+        funext n
+        have := evalValue_spec _ v val (hwf k' v List.mem_cons_self) hv
+        simp only [fileValRevFrom, lookup_insert, this, withFile_eq]
     | bare k' =>
       simp only [parseLines] at h
       cases hl : look k' with
       | some v =>
         rw [hl] at h
-        rw [ih _ h k]
+        rw [ih _ hwr h k]
         congr 1
         funext n
         simp only [fileValRevFrom, lookup_insert]
@@ -267,7 +311,7 @@ theorem parseLines_spec (look : Look) (ls : List Line) (out res : List (Key × S
         · simp [e]
       | none =>
         rw [hl] at h
-        rw [ih _ h k]
+        rw [ih _ hwr h k]
         congr 1
         funext n
         simp only [fileValRevFrom]
@@ -276,29 +320,30 @@ theorem parseLines_spec (look : Look) (ls : List Line) (out res : List (Key × S
         · simp [e]
     | bad => simp [parseLines] at h
 
-theorem parseLines_ok_iff (look : Look) (ls : List Line) (out : List (Key × Str)) :
-    (∃ res, parseLines look ls out = .ok res) ↔ Line.bad ∉ ls := by
-  induction ls generalizing out with
-  | nil => simp [parseLines]
-  | cons x r ih =>
-    cases x with
-    | assign k v => simp [parseLines, ih]
-    | bare k =>
-      simp only [parseLines]
-      cases look k <;> simp [ih]
-    | bad => simp [parseLines]
-
+/-- a file is rejected only for a rejected line or a value whose substitution fails -/
 theorem parseLines_err (look : Look) (ls : List Line) (out : List (Key × Str)) (e : Err)
-    (h : parseLines look ls out = .error e) : e = .parse := by
+    (h : parseLines look ls out = .error e) : e = .parse ∨ e = .template := by
   induction ls generalizing out with
   | nil => simp [parseLines] at h
   | cons x r ih =>
     cases x with
-    | assign k v => exact ih _ h
+    | assign k v =>
+      simp only [parseLines] at h
+      cases hv : evalValue (withFile look out) v with
+      | ok val => rw [hv] at h; exact ih _ h
+      | error e' =>
+        rw [hv] at h
+        simp only [Except.error.injEq] at h
+        subst h
+        unfold evalValue at hv
+        cases hs : CV.Template.subst (withFile look out) (CV.Template.renderL v) with
+        | ok s => rw [hs] at hv; cases hv
+        | err _ => rw [hs] at hv; simp only [Except.error.injEq] at hv; exact Or.inr hv.symm
+        | panic p => exact absurd hs (CV.Template.subst_never_panics _ _ p)
     | bare k =>
       simp only [parseLines] at h
       cases hl : look k <;> rw [hl] at h <;> exact ih _ h
-    | bad => simp only [parseLines, Except.error.injEq] at h; exact h.symm
+    | bad => simp only [parseLines, Except.error.injEq] at h; exact Or.inl h.symm
 
 /-! ### the loop over env files against `filesValRevFrom` -/
 
@@ -381,9 +426,9 @@ theorem loadLabelFile_missing (fs : FS) (p : Str) (look : Look) (hm : Missing fs
 
 theorem distinct_nil {β : Type} : Distinct ([] : List (Key × β)) := by simp [Distinct]
 
-theorem lookup_parsed (look : Look) (ls : List Line) (vars : List (Key × Str))
+theorem lookup_parsed (look : Look) (ls : List Line) (vars : List (Key × Str)) (hwf : WFLines ls)
     (h : parseLines look ls [] = .ok vars) (k : Key) : lookup k vars = fileVal look ls k :=
-  parseLines_spec look ls [] vars h k
+  parseLines_spec look ls [] vars hwf h k
 
 theorem lookup_overrideBy_str (k : Key) (m other : List (Key × Str)) (hd : Distinct other) :
     lookup k (overrideBy m other) = orElse (lookup k other) (lookup k m) := by
@@ -392,7 +437,7 @@ theorem lookup_overrideBy_str (k : Key) (m other : List (Key × Str)) (hd : Dist
   cases lookup k other <;> rfl
 
 theorem loadEnvFiles_spec (penv : List (Key × Str)) (fs : FS) (efs : List EnvFile) (acc res : List (Key × Str))
-    (hd : Distinct acc) (h : loadEnvFiles penv fs efs acc = .ok res) :
+    (hwf : WFFS fs) (hd : Distinct acc) (h : loadEnvFiles penv fs efs acc = .ok res) :
     Distinct res ∧ ∀ k, lookup k res = filesValRevFrom penv (fun n => lookup n acc) (envContents fs efs).reverse k := by
   induction efs generalizing acc with
   | nil =>
@@ -421,10 +466,10 @@ theorem loadEnvFiles_spec (penv : List (Key × Str)) (fs : FS) (efs : List EnvFi
         congr 1
         funext n
         simp only [filesValRevFrom]
-        rw [lookup_overrideBy_str n acc vars hdv, lookup_parsed _ _ _ hparse, envChain_eq]
+        rw [lookup_overrideBy_str n acc vars hdv, lookup_parsed _ _ _ (hwf _ _ hp) hparse, envChain_eq]
 
 theorem loadLabelFiles_spec (fs : FS) (paths : List Str) (acc res : List (Key × Str))
-    (hd : Distinct acc) (h : loadLabelFiles fs paths acc = .ok res) :
+    (hwf : WFFS fs) (hd : Distinct acc) (h : loadLabelFiles fs paths acc = .ok res) :
     Distinct res ∧ ∀ k, lookup k res = labelFilesValRevFrom (fun n => lookup n acc) (labelContents fs paths).reverse k := by
   induction paths generalizing acc with
   | nil =>
@@ -448,7 +493,7 @@ theorem loadLabelFiles_spec (fs : FS) (paths : List Str) (acc res : List (Key ×
       congr 1
       funext n
       simp only [labelFilesValRevFrom]
-      rw [lookup_overrideBy_str n acc vars hdv, lookup_parsed _ _ _ hparse]
+      rw [lookup_overrideBy_str n acc vars hdv, lookup_parsed _ _ _ (hwf _ _ hp) hparse]
       rfl
 
 /-! ### snoc forms, lines that do not mention a key, appending file lists -/
